@@ -142,6 +142,23 @@ func init() {
 				c.Attr("~trailer-frame", []string{"k: v", "k:v", "k:  v  ", "k:<TAB>v"}[sp-1])
 			}
 		}
+		if (tp == vanguard.ProtocolGRPC || tp == vanguard.ProtocolGRPCWeb) && call.TrailersOnly {
+			// a complete RPC status in the response head, under an HTTP status other than 200
+			// (proxies and some servers do that): the backend's own status is what ended the RPC
+			if hs := c.Choose("http-status-of-trailers-only", 4); hs > 0 {
+				st := []int{503, 429, 403}[hs-1]
+				prev := call.Mutate
+				call.Mutate = func(sr *wire.ServerResp, rep *world.Reply) {
+					if prev != nil {
+						prev(sr, rep)
+					}
+					if sr == nil && rep.Out != nil {
+						rep.Out.Status = st
+					}
+				}
+				c.Attr("~head-status", fmt.Sprint(st))
+			}
+		}
 		obs := call.run()
 		if obs.Err != nil {
 			c.Fail("harness.setup", "%v", obs.Err)
